@@ -247,7 +247,7 @@ func (tree *Tree[T]) Handler(ctx *types.Context, method string) (types.Node, T, 
 	if node == nil || node.size() == 0 {
 		return nil, tree.notFound, false
 	}
-	if h, exists := node.handlers[method]; exists {
+	if h, exists := node.handlers[method]; exists && method != methodNotAllowed {
 		return node, h, true
 	}
 	return node, node.handlers[methodNotAllowed], false
